@@ -49,7 +49,7 @@ def run(ctx, f, rep):
                     continue
                 end = outs[n + 1] if n + 1 < len(outs) else len(evs)
                 seg = evs[i + 1:end]
-                inner = [e2 for e2 in seg if e2.kind == "call" and short(e2.name) == "poll_next"]
+                inner = [e2 for e2 in seg if e2.kind == "call" and short(e2.name) in fq.INNER_POLL]
                 if not inner:
                     if p.end == "cut" and n == len(outs) - 1:
                         continue
@@ -94,8 +94,8 @@ def run(ctx, f, rep):
             key_ok = okk and pathq.mentions_call(pair[4][0], lambda x: short(x[1]) == "pop" and "BinaryHeap" in x[1]) is not None
             item = pair[4][1] if okk else None
             item_ok = okk and item[0] == "field" and item[1][0] == "downcast" and item[1][2] == "Some" and \
-                pathq.mentions_call(item, lambda x: short(x[1]) == "poll_next") is not None and \
-                not (item[0] in ("call", "pure") and short(item[1]) not in ("poll_next",))
+                pathq.mentions_call(item, lambda x: short(x[1]) in fq.INNER_POLL) is not None and \
+                not (item[0] in ("call", "pure") and short(item[1]) not in fq.INNER_POLL)
             rep.check(key_ok and item_ok, "R05.2", "R05.2|%s|pair-provenance" % b.path,
                       "delivered pair = (key of the popped event, value of the inner poll): %s" % show(pair)[:120], b.loc())
         rep.floor("R05.2", "delivery exits of poll_next", n, 1)
